@@ -151,6 +151,45 @@ struct GrowthEngine : EngineBase {
     if (!g_cut) end_history_ok();
   }
   static Snap snap_of(const Vec &v) { MonScope m; Snap s; take_snap(v, s); return s; }
+
+  // shrink_to_fit on a SmallVector holding a heap buffer taken over from an amc::vector whose capacity does not exceed N (a state no operation of
+  // the SmallVector itself reaches): the elements fit inline, so the capacity must come back to N, inline, whether the buffer was full or not
+  template <class V_ = Vec>
+  typename std::enable_if<VecInfo<V_>::kSmall>::type run_adopted_shrink(long idx) {
+    typedef amc::vector<E, typename I::alloc, SizeT> Donor;
+    begin_history(0, idx, 0xC18);
+    for (uintmax_t cap = 1; cap <= I::kN && cap <= 12 && !g_cut; ++cap)
+      for (uintmax_t fill = (cap > 2 ? cap - 2 : 0); fill <= cap && !g_cut; ++fill)
+        for (int route = 0; route < 2 && !g_cut; ++route) {
+          Donor *d;
+          Vec *v;
+          { MonScope m; d = static_cast<Donor *>(malloc(sizeof(Donor))); v = static_cast<Vec *>(malloc(sizeof(Vec))); memset(static_cast<void *>(v), 0xA5, sizeof(Vec)); }
+          window([&] { new (d) Donor(); });
+          window([&] { d->reserve(static_cast<SizeT>(cap)); });
+          for (uintmax_t i = 0; i < fill; ++i) { ++pay; window([&] { d->emplace_back(static_cast<int>(pay % 7), pay); }); }
+          if (route == 0) window([&] { new (v) Vec(std::move(*d)); });
+          else { window([&] { new (v) Vec(); }); window([&] { *v = Vec(std::move(*d)); }); }
+          if (threw) harness_fail("growth engine: adoption threw");
+          set_op("shrink_to_fit", std::string("adopted:") + state_class<Vec>(snap_of(*v)), fill == cap ? "full,fits-inline" : "not-full,fits-inline", fmt("donor capacity=%ju size=%ju route=%d", cap, fill, route));
+          window([&] { v->shrink_to_fit(); });
+          ++n_shrink;
+          if (threw) violation("C18", "growth.unexpected_exception", "shrink_to_fit threw");
+          else {
+            Snap s = snap_of(*v);
+            if (s.cap != I::kN) violation("C18", "shrink.capacity", fmt("capacity() is %ju after shrink_to_fit with %ju elements that fit the inline storage (expected N = %ju)", s.cap, fill, static_cast<uintmax_t>(I::kN)));
+            if (!s.inl) violation("C18,C05", "shrink.not_back_inline", "elements fit the inline storage but stay on the heap after shrink_to_fit (buffer taken over from an amc::vector)");
+            if (static_cast<uintmax_t>(v->size()) != fill) violation("C18,C01", "shrink.size", "shrink_to_fit changed the size");
+          }
+          window([&] { v->~Vec(); });
+          window([&] { d->~Donor(); });
+          MonScope m;
+          free(v);
+          free(d);
+        }
+    if (!g_cut) end_history_ok();
+  }
+  template <class V_ = Vec>
+  typename std::enable_if<!VecInfo<V_>::kSmall>::type run_adopted_shrink(long idx) { begin_history(0, idx, 0xC18); end_history_ok(); }
 };
 
 }  // namespace vf
@@ -163,11 +202,12 @@ int main(int argc, char **argv) {
   g_elem_relocatable = EI<Elem>::kRelocatable;
   static GrowthEngine<Vec> eng;
   uintmax_t nmax = a.has("--deep") ? 100000 : 3000;
-  long total = GrowthEngine<Vec>::kStarts * GrowthEngine<Vec>::kMethods + 1;
+  long total = GrowthEngine<Vec>::kStarts * GrowthEngine<Vec>::kMethods + 2;
   long to = a.to < total ? a.to : total;
   long h = a.from;
   for (; h < to; ++h) {
-    if (h == total - 1) eng.run_reserve_shrink(h);
+    if (h == total - 1) eng.run_adopted_shrink(h);
+    else if (h == total - 2) eng.run_reserve_shrink(h);
     else {
       uintmax_t nm = nmax;
       if ((h / GrowthEngine<Vec>::kStarts) % GrowthEngine<Vec>::kMethods == 3) nm = std::min<uintmax_t>(nm, 1500);  // insert(begin) is quadratic
